@@ -40,6 +40,7 @@ class Composition(object):
 
     def __init__(self):
         self.empty()
+        self.selected_tracks = []
 
     def empty(self):
         """Remove all the tracks from this class."""
